@@ -84,3 +84,95 @@ theorem C14_header_line_composed (P v1 y1 v2 y2 r : Bytes) (hP : IsHeaderPrefix 
 example : stepLine b!"4.8.0-rc1" b!"2031" b!"# OWASP CRS ver.4.0.0" = b!"# OWASP CRS ver.4.8.0-rc1" := by decide +kernel
 
 end Crs.Props
+
+namespace Crs.Props
+open Crs Crs.Copyright
+
+/-! ### the SecComponentSignature line -/
+
+theorem takeDrop_run (x q : Bytes) (hx : ∀ c ∈ x, (c != '"') = true) (hq : q = [] ∨ q.head? = some '"') :
+    (x ++ q).takeWhile (· != '"') = x ∧ (x ++ q).dropWhile (· != '"') = q := by
+  induction x with
+  | nil =>
+    rcases hq with rfl | hq
+    · simp
+    · cases q with
+      | nil => simp
+      | cons a as =>
+        simp only [List.head?_cons, Option.some.injEq] at hq
+        subst hq
+        simp
+  | cons a as ih =>
+    have ha : (a != '"') = true := hx a (by simp)
+    have := ih (fun c hc => hx c (by simp [hc]))
+    simp only [List.cons_append, List.takeWhile_cons, List.dropWhile_cons, ha, if_true, this.1, this.2, and_self]
+
+theorem verOk_noDq (v : Bytes) (h : VersionOk v) : ∀ c ∈ v, (c != '"') = true := by
+  intro c hc
+  have := h.2 c hc
+  have hne : c ≠ '"' := by
+    intro e; subst e; simp [isVerCh, isLower, isUpper, isDigit] at this
+  simpa using hne
+
+/-- **C14 (signature line, all five patterns).** On `SecComponentSignature "OWASP_CRS/X…` (X not empty, without a double
+    quote; what follows begins with the closing quote or is nothing; no `=` and no `'` on the line) one step of
+    update-copyright replaces X by the version and leaves the rest of the line as it is. -/
+theorem stepLine_signature (v y x q : Bytes) (_hv : VersionOk v) (hx0 : x ≠ []) (hx : ∀ c ∈ x, (c != '"') = true)
+    (hq : q = [] ∨ q.head? = some '"') (he : '=' ∉ x ++ q) (hs : '\'' ∉ x ++ q) :
+    stepLine v y (p5 ++ (x ++ q)) = p5 ++ v ++ q := by
+  have hne : '=' ∉ p5 ++ (x ++ q) := by
+    intro hm; rcases List.mem_append.mp hm with h | h
+    · exact absurd h (by decide)
+    · exact he h
+  have hnq : '\'' ∉ p5 ++ (x ++ q) := by
+    intro hm; rcases List.mem_append.mp hm with h | h
+    · exact absurd h (by decide)
+    · exact hs h
+  have h1 : sub1 v (p5 ++ (x ++ q)) = p5 ++ (x ++ q) := by
+    unfold sub1
+    have a : stripPrefix? p1a (p5 ++ (x ++ q)) = none := by simp [p5, p1a, stripPrefix?]
+    have b : stripPrefix? p1b (p5 ++ (x ++ q)) = none := by simp [p5, p1b, stripPrefix?]
+    rw [a, b]
+  have h2 : sub2 (digitsOf v) (p5 ++ (x ++ q)) = p5 ++ (x ++ q) := by
+    unfold sub2
+    rw [splitCh_noSep '=' _ hne]
+    simp [sub2Fields, joinCh]
+  have h3 : sub3 y (p5 ++ (x ++ q)) = p5 ++ (x ++ q) := by
+    unfold sub3
+    have : stripPrefix? p3 (p5 ++ (x ++ q)) = none := by simp [p3, p5, stripPrefix?]
+    rw [this]
+  have h4 : sub4 v (p5 ++ (x ++ q)) = p5 ++ (x ++ q) := by
+    unfold sub4
+    rw [splitCh_noSep '\'' _ hnq]
+    simp [sub4Fields, joinCh]
+  have h5 : sub5 v (p5 ++ (x ++ q)) = p5 ++ v ++ q := by
+    unfold sub5
+    rw [stripPrefix?_append]
+    obtain ⟨ht, hd⟩ := takeDrop_run x q hx hq
+    simp only [ht, hd]
+    cases x with
+    | nil => exact absurd rfl hx0
+    | cons a as => simp
+  unfold stepLine
+  rw [h1, h2, h3, h4, h5]
+
+/-- **C14 (signature line: the last invocation wins, for the composed step).** -/
+theorem C14_signature_line_composed (v1 y1 v2 y2 x q : Bytes) (h1 : VersionOk v1) (h2 : VersionOk v2) (hx0 : x ≠ [])
+    (hx : ∀ c ∈ x, (c != '"') = true) (hq : q = [] ∨ q.head? = some '"') (he : '=' ∉ x ++ q) (hs : '\'' ∉ x ++ q) :
+    stepLine v2 y2 (stepLine v1 y1 (p5 ++ (x ++ q))) = stepLine v2 y2 (p5 ++ (x ++ q)) := by
+  have heq : '=' ∉ q := fun h => he (List.mem_append.mpr (.inr h))
+  have hsq : '\'' ∉ q := fun h => hs (List.mem_append.mpr (.inr h))
+  rw [stepLine_signature v1 y1 x q h1 hx0 hx hq he hs, stepLine_signature v2 y2 x q h2 hx0 hx hq he hs]
+  rw [List.append_assoc]
+  apply stepLine_signature v2 y2 v1 q h2 h1.1 (verOk_noDq v1 h1) hq
+  · intro hm; rcases List.mem_append.mp hm with h | h
+    · exact verOk_noEq v1 h1 h
+    · exact heq h
+  · intro hm; rcases List.mem_append.mp hm with h | h
+    · exact verOk_noQuote v1 h1 h
+    · exact hsq h
+
+example : stepLine b!"4.8.0" b!"2031" b!"SecComponentSignature \"OWASP_CRS/4.0.0-rc1\"" = b!"SecComponentSignature \"OWASP_CRS/4.8.0\"" := by
+  decide +kernel
+
+end Crs.Props
